@@ -65,6 +65,7 @@ PRIMITIV_C_STATUS primitivGetParameterFromModel(
   PRIMITIV_C_CHECK_NOT_NULL(model);
   PRIMITIV_C_CHECK_NOT_NULL(names);
   PRIMITIV_C_CHECK_NOT_NULL(retval);
+  PRIMITIV_C_CHECK_NOT_NULL_ARRAY(names, n);
   *retval = to_c_ptr(&(to_cpp_ptr(model)->get_parameter(
       std::vector<std::string>(names, names + n))));
   return PRIMITIV_C_OK;
@@ -76,6 +77,7 @@ PRIMITIV_C_STATUS primitivGetSubmodelFromModel(
   PRIMITIV_C_CHECK_NOT_NULL(model);
   PRIMITIV_C_CHECK_NOT_NULL(names);
   PRIMITIV_C_CHECK_NOT_NULL(retval);
+  PRIMITIV_C_CHECK_NOT_NULL_ARRAY(names, n);
   *retval = to_c_ptr(&(to_cpp_ptr(model)->get_submodel(
       std::vector<std::string>(names, names + n))));
   return PRIMITIV_C_OK;
